@@ -28,6 +28,7 @@ type Features struct {
 	PObj      float64 // parameters gathered into objects
 	PNest     float64 // part of a parameter object moved into a nested parameter object
 	PReenter  float64 // a function whose body calls Invoke on the container again
+	PVal      float64 // a key whose type is a struct passed by value instead of a pointer
 	PGroupDec float64 // decorator decorates a group
 	MaxParams int
 	Opts      []cat.Opts
@@ -41,6 +42,9 @@ func pick(r *rand.Rand, p float64) bool { return r.Float64() < p }
 
 func (ft Features) key(r *rand.Rand, group bool) string {
 	t := fmt.Sprintf("T%d", r.Intn(ft.Types))
+	if pick(r, ft.PVal) {
+		t = []string{"V0", "V1"}[r.Intn(2)] // a value of a non-pointer kind
+	}
 	if group {
 		g := "g"
 		if pick(r, 0.25) {
@@ -188,7 +192,7 @@ func Random(r *rand.Rand, ft Features) *cat.Catalog {
 			f.Rs = []cat.Result{{Ks: []string{fmt.Sprintf("T%d", r.Intn(ft.Types))}, M: "one"}}
 			provided = append(provided, f.Rs[0].Ks[0])
 		}
-		if len(f.Rs) == 1 && f.Rs[0].M == "one" && pick(r, ft.PAs) {
+		if len(f.Rs) == 1 && f.Rs[0].M == "one" && f.Rs[0].Ks[0][0] == 'T' && pick(r, ft.PAs) {
 			// concrete T -> interface key(s)
 			ct := f.Rs[0].Ks[0][:2]
 			name := f.Rs[0].Ks[0][2:]
@@ -198,7 +202,7 @@ func Random(r *rand.Rand, ft Features) *cat.Catalog {
 				f.Rs[0].Ks = append(f.Rs[0].Ks, "I1"+name)
 			}
 			provided = append(provided, f.Rs[0].Ks...)
-		} else if len(f.Rs) == 1 && f.Rs[0].M == "grp" && pick(r, ft.PAs) {
+		} else if len(f.Rs) == 1 && f.Rs[0].M == "grp" && f.Rs[0].Ks[0][0] == 'T' && pick(r, ft.PAs) {
 			// a group member given under one or two interfaces
 			k := f.Rs[0].Ks[0]
 			f.Rs[0].CT = k[:2]
@@ -405,12 +409,12 @@ func RandomFamily(seed int64, n int, ft Features) []*cat.Catalog {
 // Presets are named feature sets.
 var Presets = map[string]Features{
 	"small": {Scopes: 2, Ctors: 3, Decs: 1, Invs: 1, Types: 3, PNamed: 0.15, POpt: 0.25, PGroup: 0.2,
-		PSoft: 0.3, PFlat: 0.3, PExport: 0.3, PMulti: 0.3, PAs: 0.15, PCb: 0.3, PObj: 0.4, PNest: 0.3, PReenter: 0.12, PGroupDec: 0.3, MaxParams: 2},
+		PSoft: 0.3, PFlat: 0.3, PExport: 0.3, PMulti: 0.3, PAs: 0.15, PCb: 0.3, PObj: 0.4, PNest: 0.3, PReenter: 0.12, PVal: 0.12, PGroupDec: 0.3, MaxParams: 2},
 }
 
 func init() {
 	Presets["medium"] = Features{Scopes: 3, Ctors: 6, Decs: 2, Invs: 3, Types: 4, PNamed: 0.15, POpt: 0.25, PGroup: 0.25,
-		PSoft: 0.3, PFlat: 0.3, PExport: 0.3, PMulti: 0.3, PAs: 0.15, PCb: 0.4, PObj: 0.4, PNest: 0.3, PReenter: 0.1, PGroupDec: 0.3, MaxParams: 3}
+		PSoft: 0.3, PFlat: 0.3, PExport: 0.3, PMulti: 0.3, PAs: 0.15, PCb: 0.4, PObj: 0.4, PNest: 0.3, PReenter: 0.1, PVal: 0.12, PGroupDec: 0.3, MaxParams: 3}
 	Presets["large"] = Features{Scopes: 4, Ctors: 12, Decs: 4, Invs: 4, Types: 6, PNamed: 0.2, POpt: 0.25, PGroup: 0.25,
-		PSoft: 0.3, PFlat: 0.3, PExport: 0.3, PMulti: 0.35, PAs: 0.15, PCb: 0.4, PObj: 0.4, PNest: 0.3, PReenter: 0.1, PGroupDec: 0.3, MaxParams: 3}
+		PSoft: 0.3, PFlat: 0.3, PExport: 0.3, PMulti: 0.35, PAs: 0.15, PCb: 0.4, PObj: 0.4, PNest: 0.3, PReenter: 0.1, PVal: 0.12, PGroupDec: 0.3, MaxParams: 3}
 }
